@@ -1,3 +1,4 @@
+import SieveModel.Generated.MsConsts
 import SieveModel.Lemmas.ReplyDecode
 import SieveModel.Lemmas.ReplyLine
 import SieveModel.Lemmas.ReplyGrammar
@@ -408,5 +409,8 @@ example : (⟨some (sb "QUOTA/MAXSIZE"), some (.literal (sb "a\r\nb"))⟩ : NoRe
     subst this
     exact ⟨by decide, by decide⟩
   · intro t ht; cases ht
+
+/-- the regular expressions `sievelib/managesieve.py` uses now are the ones the model implements -/
+theorem client_patterns_are_the_modelled_ones : Generated.clientPatterns = Client.patterns := by decide
 
 end C09
